@@ -36,6 +36,21 @@ def gen_restart_together(r, tier):
     return ops
 
 
+def gen_config_toggle(r, tier):
+    """an analysed fan is started once WITH a pwmMap override in the configuration and then again without it: the measured
+    data stored under its id are still there and are reused (exact stream; seed C15i: adopting the override deleted the
+    stored measured map as a presumed left-over copy)"""
+    ops = []
+    for _ in range(6 if tier == "quick" else 100):
+        p = r.below(2)
+        base = f"kind=hwmon minmax={r.below(2)} hasrpm=1 ns={r.below(2)} quant={r.pick([0, 2, 8])} spinat={r.range(5, 90)}"
+        ops += [f"#case su toggle parallel={p}", f"su.open parallel={p} yield_us=0",
+                f"su.fan fan=f1 {base} cfgmap=0 mapstyle=identity", "su.start fan=f1", "su.data fan=f1",
+                f"su.fan fan=f1 {base} cfgmap=1 mapstyle={r.pick(['identity', 'plateau', 'shifted'])}", "su.start fan=f1",
+                f"su.fan fan=f1 {base} cfgmap=0 mapstyle=identity", "su.start fan=f1", "su.data fan=f1"]
+    return ops
+
+
 def gen_cancelled_start(r, tier):
     """an analysed fan is started again and the start is cancelled (SIGTERM, a failing peer) a few milliseconds in - during
     the start-up wait, the look-ups, or the first cycles; the start after that must find everything stored as it was
@@ -56,7 +71,7 @@ def gen_cancelled_start(r, tier):
 class C15(Prop):
     id = "C15"
     lean_modules = ["Fan2go.Props.C15", "Fan2go.Props.C15b"]
-    fact_modules = ["Fan2go.Props.Facts", "Fan2go.Props.Trans3Init"]
+    fact_modules = ["Fan2go.Props.Facts", "Fan2go.Props.Trans3Init", "Fan2go.Props.Trans3RunInit"]
     rule = ("startup: the REAL DefaultFanController.Run on fans over virtual devices with a real bbolt file in virtual time, stopped "
             "right after the first regulation cycle; sequences of start / reset / init (<= 6) over {hwmon, file} x configured "
             "pwmMap on/off x configured min+max on/off x RPM input on/off; every PWM write before the first regulation cycle is "
@@ -68,6 +83,7 @@ class C15(Prop):
     assumptions = ["the bodies of `fan2go fan reset` / `fan init` are re-stated in the harness; their call sequences are regenerated facts (fact_cli_bodies)",
                    "database operations succeed (C14's subject)"]
     streams = [Stream("startup", gen_su, parallel=8), Stream("startup-data", gen_su_data, parallel=8),
+               Stream("config-toggle", gen_config_toggle, parallel=8),
                Stream("cancelled-start", gen_cancelled_start, parallel=8, exact=False, contract=lambda op, a, b: True),
                # oracle-only (real goroutines, real bbolt file locks): restarts of several fans at once
                Stream("restart-together", gen_restart_together, parallel=2, exact=False, contract=lambda op, a, b: True, timeout=1800)]
@@ -93,6 +109,18 @@ class C15(Prop):
                     if not ok:
                         break
                     started = True
+            return out
+        if name == "config-toggle":
+            for cops, cgo in cases(ops, go):
+                starts = [i for i, o in enumerate(cops) if o.startswith("su.start")]
+                if len(starts) == 3 and kv(cgo[starts[0]]).get("res") == "ok":
+                    last = kv(cgo[starts[2]])
+                    if last.get("sweep") == "1" or last.get("measure") == "1" or last.get("res") != "ok":
+                        out.append(viol("a fan that had been analysed was analysed again after one start with a configured pwmMap in between "
+                                        "(nobody discarded its stored data)", cops, cgo, upto=starts[2]))
+                    elif cgo[starts[0] + 1] != cgo[-1]:
+                        out.append(viol("the stored PWM map / RPM curve of an analysed fan changed after one start with a configured pwmMap in between",
+                                        cops, cgo))
             return out
         for cops, cgo in cases(ops, go):
             decl = {}
